@@ -130,3 +130,13 @@ func CoinString(c sdk.Coin) string { return c.Amount.String() + c.Denom }
 
 //verif:model (github.com/cosmos/cosmos-sdk/types.Coins).String
 func CoinsString(c sdk.Coins) string { return "<coins>" }
+
+// ValidateAuthority models sdk.ValidateAuthority with no consensus-params authority override.
+//
+//verif:model github.com/cosmos/cosmos-sdk/types.ValidateAuthority
+func ValidateAuthority(ctx sdk.Context, keeperAuthority, msgAuthority string) error {
+	if keeperAuthority != msgAuthority {
+		return errApp
+	}
+	return nil
+}
